@@ -181,6 +181,9 @@ def ref_not_modified(case):
 
 TAGS = ["abc", "v1", "xyz", "a b", "0"]
 GARBAGE_TAGS = ["??", '"unterminated', ",,", "W/", "'q'", '"a" "b"', " ", 'w/"', "abc\"", '"']
+# date look-alikes spelled like entity tags: parse_date (email.utils) accepts a quoted date, but
+# parse_if_range_header must read them as entity tags (31f8ea0)
+QUOTED_DATES = ['"Wed, 21 Oct 2015 07:28:00 GMT"', 'W/"Wed, 21 Oct 2015 07:28:00 GMT"', 'w/"Thu, 01 Jan 2026 00:00:00 GMT"', ' "Thu, 01 Jan 2026 00:00:00 GMT"', '"Thu, 01 Jan 2026 00:00:00 GMT', 'W/Thu, 01 Jan 2026 00:00:00 GMT', '\t"Thu, 01 Jan 2026 00:00:01 GMT"']
 GARBAGE_DATES = ["yesterday", "0", "Thu, 32 Jan 2026 00:00:00 GMT", "2026-01-01T00:00:00Z", ""]
 
 
@@ -217,6 +220,11 @@ class ConditionalStream(Stream):
             C(inm={"tags": [["abc", False]]}, range="bytes=0-1", accept_ranges=True, clen=10),
             C(im={"tags": [["zzz", False]]}, range="bytes=0-1", accept_ranges=True, clen=10, strict=False),
             C(route="direct", ignore_if_range=False, range="bytes=0-1", if_range={"etag": ["abc", False]}, strict=False),
+            # model/code difference found by builder-translator: a quoted date in If-Range is an entity tag
+            C(route="direct", ignore_if_range=False, range="bytes=0-1", if_range={"raw": '"Wed, 21 Oct 2015 07:28:00 GMT"'}, etag=["abc", False], lm=[1445412480, 0, 0], strict=False, accept_ranges=True, clen=10),
+            C(route="response", range="bytes=0-1", if_range={"raw": '"Wed, 21 Oct 2015 07:28:00 GMT"'}, etag=["abc", False], lm=[1445412480, 0, 0], strict=False, accept_ranges=True, clen=10),
+            C(route="response", range="bytes=0-1", if_range={"raw": 'W/"Wed, 21 Oct 2015 07:28:00 GMT"'}, etag=None, lm=[1445412480, 0, 0], strict=False, accept_ranges=True, clen=10),
+            C(route="response", range="bytes=0-1", if_range={"raw": '"Wed, 21 Oct 2015 07:28:00 GMT"'}, etag=["Wed, 21 Oct 2015 07:28:00 GMT", False], lm=[1445412481, 0, 0], strict=False, accept_ranges=True, clen=10),
             C(route="direct", ignore_if_range=False, range="bytes=0-1", if_range={"t": T0, "fmt": 0}, lm=[T0, 5, 0], inm={"tags": [["zzz", False]]}, strict=False),
         ]
 
@@ -232,6 +240,12 @@ class ConditionalStream(Stream):
         if etag is not None and rng.random() < 0.5:
             tags[rng.randrange(n)][0] = etag[0]
         return {"tags": tags}
+
+    def quoted_date(self, rng, lm):
+        """a date spelled like an entity tag (quoted, optionally W/-prefixed / indented)"""
+        base = lm[0] if lm is not None else T0
+        text = fmt_date(base + rng.choice([-1, 0, 0, 1]), 0)
+        return {"raw": rng.choice(['"%s"', 'W/"%s"', 'w/"%s"', ' "%s"', '"%s', 'W/%s']) % text}
 
     def rand_date(self, rng, lm):
         if rng.random() < 0.12:
@@ -267,6 +281,8 @@ class ConditionalStream(Stream):
                     c["strict"] = c["strict"] and c["ignore_if_range"]
                 if rng.random() < 0.5:
                     c["if_range"] = {"etag": list(etag) if etag and rng.random() < 0.6 else [rng.choice(TAGS), False]} if rng.random() < 0.5 else self.rand_date(rng, lm)
+                    if rng.random() < 0.25:
+                        c["if_range"] = self.quoted_date(rng, lm)
                     c["strict"] = False  # If-Range outcomes are judged in stream ranges
             yield finish(c)
 
@@ -504,7 +520,7 @@ class RangesStream(Stream):
                 elif y < 0.9:
                     c["if_range"] = {"t": T0 + rng.choice([-3600, -1, 0, 0, 1]), "fmt": rng.choice([0, 1, 2])}
                 else:
-                    c["if_range"] = {"raw": rng.choice(["", "garbage", '"'])}
+                    c["if_range"] = {"raw": rng.choice(["", "garbage", '"'] + ['"%s"' % fmt_date(T0, 0), 'W/"%s"' % fmt_date(T0, 0), ' "%s"' % fmt_date(T0 + 1, 0), 'w/"%s"' % fmt_date(T0 - 1, 0)])}
             yield c
 
     def exhaustive_cases(self, rng):
@@ -617,6 +633,9 @@ class RangesStream(Stream):
             if case["lm"] is None:
                 return "unclear"
             return "pass" if ir["t"] == case["lm"] else ("fail" if ir["t"] < case["lm"] else "unclear")
+        m = re.fullmatch(r'\s*(?:[Ww]/)?"([^"]*)"', ir.get("raw", ""))
+        if m and (case["etag"] is None or case["etag"][0] != m.group(1)):
+            return "fail"  # a quoted value is an entity tag (never a date), and it is not the current one
         return "unclear"
 
     def oracle(self, case, real_out):
